@@ -540,11 +540,25 @@ Definition reattached_nodes (g : graph) (ks : list N) : list N :=
   map s_key (filter (fun s => mem_N (s_key s) ks && s_detached s) (g_steps g))
   ++ map f_key (filter (fun f => mem_N (f_key f) ks && f_detached f) (g_files g))
   ++ map o_key (filter (fun o => mem_N (o_key o) ks && o_detached o) (g_others g)).
-Definition undeferF (g : graph) (ks : list N) (s : step) : step :=
-  if s_deferred s && existsb (fun d => mem_N (d_src d) ks && (d_snk d =? s_key s)) (g_deps g)
+(* a file row that a consumer can use: attached and CONFIRMED / BUILT (Scheduler._derive_job:
+   `not detached and file_state in (BUILT, CONFIRMED)`) *)
+Definition file_usable (f : file) : bool := negb (f_detached f) && mem_N (f_state f) dyn_available_states.
+Definition src_is (p : file -> bool) (g : graph) (k : N) : bool :=
+  existsb (fun f => (f_key f =? k) && p f) (g_files g).
+(* step.unusable_dynamic_input_sql / Step.has_unusable_dynamic_input (query compared by the translator) = the
+   negation of dynamic_inputs_ready in Scheduler._derive_job *)
+Definition unusable_dyn (g : graph) (k : N) : bool :=
+  existsb (fun d => (d_snk d =? k) && d_dyn d && src_is (fun f => negb (file_usable f)) g (d_src d)) (g_deps g).
+(* `strict` (generated: trg_undefer_strict, the refined trigger): ... AND NOT EXISTS (unusable dynamic input of the
+   step), evaluated on the tables after the UPDATE of the node rows *)
+Definition undeferF_with (strict : bool) (g : graph) (ks : list N) (s : step) : step :=
+  if s_deferred s && (existsb (fun d => mem_N (d_src d) ks && (d_snk d =? s_key s)) (g_deps g)
+                      && (negb strict || negb (unusable_dyn g (s_key s))))
   then set_life s (s_state s) false (s_defer_count s) (s_holding s) else s.
-Definition undefer_consumers (g : graph) (ks : list N) : graph :=
-  with_steps g (map (undeferF g ks) (g_steps g)).
+Definition undefer_consumers_with (strict : bool) (g : graph) (ks : list N) : graph :=
+  with_steps g (map (undeferF_with strict g ks) (g_steps g)).
+Definition undeferF : graph -> list N -> step -> step := undeferF_with trg_undefer_strict.
+Definition undefer_consumers : graph -> list N -> graph := undefer_consumers_with trg_undefer_strict.
 Definition set_detached_nodes (g : graph) (ks : list N) (b : bool) : graph :=
   let g' := set_detached_nodes_core g ks b in
   if trg_undefer_on_reattach && negb b then undefer_consumers g' (reattached_nodes g ks) else g'.
